@@ -8,12 +8,14 @@
 //! database (SaveLoad continues with the LOADED state), SQL count of pending rows per account;
 //! (4) the repository's conformance suite as a regression floor.
 
+mod hang;
 mod model;
 mod persist;
 mod world;
 
 use std::collections::{BTreeMap, BTreeSet};
 
+use vcore::serde_json;
 use vcore::{catch, pick_index, vensure, vensure_eq, vfail, CaseResult, Ctx, Fail, Obs};
 use zcash_pool_migration::engine::{
     MigrationState, MigrationStatus, MigrationTransaction, MigrationTxKind, MigrationTxState, ProvedTransaction,
@@ -508,7 +510,7 @@ impl H<'_> {
         let mut state = pre.clone();
         let viol = self.case.violating.as_deref();
         let mut store = Scripted::new(&self.world, &mut *self.backend, fail_at.map(|k| k as u32), viol);
-        let res = catch(|| advance_migration(&mut store, &mut state, targets, &cfg, &mut rng)).map_err(|p| classify_panic(&what, &p))?;
+        let res = hang::guarded(&what, || catch(|| advance_migration(&mut store, &mut state, targets, &cfg, &mut rng))).map_err(|p| classify_panic(&what, &p))?;
         let log = store.log.borrow().clone();
         let last_replace = store.last_replace.take();
         let replaces = store.replaces;
@@ -1138,6 +1140,7 @@ impl H<'_> {
 }
 
 fn run_history(case: &Case, kind: BackendKind) -> CaseResult {
+    hang::set_case(if kind == BackendKind::Memory { "history-memory" } else { "history-sqlite" }, serde_json::to_string(case).unwrap_or_default());
     let built = build(case);
     with_backend(kind, |backend| -> CaseResult {
         backend.reset()?;
@@ -1296,6 +1299,48 @@ fn main() {
     unsafe { rusqlite::ffi::sqlite3_config(rusqlite::ffi::SQLITE_CONFIG_MEMSTATUS, 0 as std::os::raw::c_int) };
     let ctx = Ctx::from_args("C18", "exploration");
     let _ = CTX.set(ctx.clone());
+    {
+        // a hanging advance_migration is a violation of invariant 7, reported with a direct replay
+        let c = ctx.clone();
+        hang::start_monitor(move |sub, case_json, what| {
+            let dir = c.root.join("work").join("violations");
+            let _ = std::fs::create_dir_all(&dir);
+            let path = dir.join(format!("C18-{sub}-hang-{:016x}.json", vcore::hash64(case_json.as_bytes())));
+            let case: serde_json::Value = serde_json::from_str(case_json).unwrap_or(serde_json::Value::Null);
+            let msg = format!("{what}: advance_migration did not return within {} s (normal cost: microseconds): the drive loop does not terminate", hang::HANG_MS / 1000);
+            let doc = serde_json::json!({"property": "C18", "sub": sub, "kind": "direct", "tier": c.tier.name(), "seed": c.seed, "worker": 0, "index": null,
+                "signature": "advance-nontermination", "message": msg, "shrunk_case": case_json, "direct": case});
+            let _ = std::fs::write(&path, serde_json::to_string_pretty(&doc).unwrap());
+            c.external_violation(sub, &path, &format!("signature=advance-nontermination {msg}\n  case: {case_json}"));
+            println!("RESULT property=C18 tier={} seed={} violations=1", c.tier.name(), c.seed);
+        });
+    }
+    if let Some(direct) = ctx.replay.as_ref().and_then(|r| r.direct.clone()) {
+        // direct replay of a serialized case (written by the hang monitor)
+        let sub = ctx.replay.as_ref().map(|r| r.sub.clone()).unwrap_or_default();
+        let case: Case = match serde_json::from_value(direct) {
+            Ok(c) => c,
+            Err(e) => {
+                eprintln!("cannot parse the direct case: {e}");
+                std::process::exit(2)
+            }
+        };
+        let kind = if sub == "history-sqlite" { BackendKind::Sqlite } else { BackendKind::Memory };
+        match catch(|| run_history(&case, kind)) {
+            Ok(Ok(_)) => {
+                println!("RESULT property=C18 direct replay held");
+                std::process::exit(0)
+            }
+            Ok(Err(f)) => {
+                println!("VIOLATION property=C18 replay=(direct)\n  sub-check={sub} signature={} message={}", f.signature, f.msg);
+                std::process::exit(1)
+            }
+            Err(p) => {
+                println!("VIOLATION property=C18 replay=(direct)\n  sub-check={sub} signature=harness-panic message={p}");
+                std::process::exit(1)
+            }
+        }
+    }
     ctx.set_rule(
         "Case = well-formed committed migration (DAG: <=3 preparation layers of <=3 txs with backward dependencies, 1-5 transfers each on <=1 preparation; \
          states AwaitingSignature..Mined, marks, reports, expiry in {0, canonical, past, doomed window}, on-grid anchors, any status, any threshold; \
